@@ -184,6 +184,58 @@ theorem C11_end_to_end (cd : Codec) (s : Sys) (ops : List Op) : Rpc.run cd s ops
 theorem C11_rejection_reported (cd : Codec) (e : Err) : decodeReply cd (encodeReply cd (.err e)) = .err e :=
   reply_roundtrip cd (.err e)
 
+/-! ### the message-size limit (the two open known findings of C11, as theorems about the model) -/
+
+/-- **Partial (what holds with the limit):** for every history all of whose messages fit the limit,
+    the gRPC client is indistinguishable from the inline client. -/
+theorem C11_end_to_end_within_limit_partial (cd : Codec) (lim : Nat) (s : Sys) (ops : List Op)
+    (h : Rpc.Fits lim s ops) : Rpc.runLim cd lim s ops = s.run ops := by
+  induction ops generalizing s with
+  | nil => rfl
+  | cons op ops ih =>
+    obtain ⟨h1, h2, h3⟩ := h
+    have hc : Rpc.callLim cd lim s op = s.step op := by
+      unfold Rpc.callLim
+      rw [request_roundtrip]
+      simp only [h1, h2, if_true, reply_roundtrip]
+    simp only [Rpc.runLim, Sys.run, hc, ih _ h3]
+
+/-- **The full statement is false with the limit** (known finding `C11-getkeys-over-4MiB`): whenever
+    the keys a GetKeys lists total more than the limit, the inline client lists them and the gRPC
+    client reports ErrNoFreeSpace — for EVERY limit and EVERY server state. -/
+theorem C11_getkeys_over_limit (cd : Codec) (lim : Nat) (s : Sys) (t : Nat) (ks : List Key)
+    (hk : s.getKeys t = .keys ks) (hbig : lim < (ks.map Rpc.keySize).sum) :
+    (s.step (.keys t)).2 = .keys ks ∧ (Rpc.callLim cd lim s (.keys t)).2 = .err .noFreeSpace := by
+  have hs : (s.step (.keys t)).2 = .keys ks := hk
+  refine ⟨hs, ?_⟩
+  unfold Rpc.callLim
+  rw [request_roundtrip]
+  have h1 : Rpc.reqFits lim (.keys t) = true := rfl
+  have h2 : Rpc.replyFits lim (s.step (.keys t)).2 = false := by
+    rw [hs]; simp [Rpc.replyFits]; omega
+  simp [h1, h2]
+
+/-- … and `C11-key-over-4MiB`: a Set whose key is larger than the limit is refused over gRPC and
+    changes nothing, whatever the inline client does with it. -/
+theorem C11_key_over_limit (cd : Codec) (lim : Nat) (s : Sys) (t : Nat) (k : Key) (c : Nat)
+    (hbig : lim < Rpc.keySize k) : Rpc.callLim cd lim s (.set t k c) = (s, .err .noFreeSpace) := by
+  unfold Rpc.callLim
+  have : Rpc.reqFits lim (.set t k c) = false := by simp [Rpc.reqFits, Rpc.reqKey]; omega
+  simp [this]
+
+/-- witness (limit 3, key of 4 bytes): the inline client stores and lists it, the gRPC client does neither -/
+example :
+    let cd : Codec := ⟨fun c => [c], fun l => l.headD 0, 2048, by decide, fun _ => rfl⟩
+    (({} : Sys).step (.set 0 "abcd" 7)).2 = .ok ∧
+    (Rpc.callLim cd 3 {} (.set 0 "abcd" 7)).2 = .err .noFreeSpace ∧
+    (Rpc.callLim cd 3 (({} : Sys).step (.set 0 "abcd" 7)).1 (.keys 0)).2 = .err .noFreeSpace ∧
+    ((({} : Sys).step (.set 0 "abcd" 7)).1.step (.keys 0)).2 = .keys ["abcd"] := by
+  decide
+
+/-- non-vacuity of the partial theorem: a history whose messages all fit -/
+example : Rpc.Fits 100 {} [.set 0 "k" 1, .keys 0, .get 0 "k"] := by
+  refine ⟨by decide, by decide, by decide, by decide, by decide, by decide, trivial⟩
+
 /-- non-vacuity: a codec exists (bytes of content `c` = the list `[c]`, chunks of 2048) -/
 example : ∃ cd : Codec, cd.chunk = 2048 :=
   ⟨⟨fun c => [c], fun l => l.headD 0, 2048, by decide, fun _ => rfl⟩, rfl⟩
